@@ -87,6 +87,32 @@ def run_compute(shard, mon, S, table):
                     check_valid(mon, S, o.value, cc, table, w)
                 elif not judge.is_lib_exc(o.exc):
                     mon.viol(f"escape:generate:{o.exc_name}", w, "library error", o.brief())
+        # components for fields the country does not have (a branch code where there is no branch field, ...), and
+        # from_components with every subset of the keywords left out: a library error, or a nationally valid result
+        allk = ("bank_code", "branch_code", "account_code", "account_type", "account_id", "currency_code")
+        for k in range(12 if shard["tier"] == "quick" else 200):
+            kwargs = {"bank_code": val("bank_code"), "account_code": val("account_code")}
+            for extra in allk:
+                if extra not in pos and rng.random() < 0.5:
+                    kwargs[extra] = rng.choice(["79", "1", "0418", "X"])
+                elif extra in pos and extra not in kwargs and rng.random() < 0.5:
+                    kwargs[extra] = val(extra)
+            if k % 3 == 0:
+                kwargs.pop(rng.choice(sorted(kwargs)))
+            gen_kw = {c_: v_ for c_, v_ in kwargs.items() if c_ in ("bank_code", "branch_code", "account_code")}
+            for name, fn in (("from_components", lambda: S.IBAN.from_bban(cc, S.BBAN.from_components(cc, **kwargs))),
+                             ("generate", (lambda: S.IBAN.generate(cc, **gen_kw)) if {"bank_code", "account_code"} <= set(gen_kw) else None)):
+                if fn is None:
+                    continue
+                o = observe(fn)
+                mon.ev()
+                mon.tally("surplus_or_omitted_components")
+                w = {"country": cc, "via": name, "components": kwargs if name == "from_components" else gen_kw}
+                if o.ok:
+                    produced += 1
+                    check_valid(mon, S, o.value, cc, table, w)
+                elif not judge.is_lib_exc(o.exc) and not isinstance(o.exc, TypeError):
+                    mon.viol(f"escape:{name}:{o.exc_name}", w, "library error", o.brief())
         for k in range(n // 3):
             # draws with pinned bank and account: a valid (also nationally) IBAN carrying the pins, or the overflow error
             pb, pa = val("bank_code"), val("account_code")
